@@ -444,10 +444,15 @@ fn rename_map(prog: &[Stmt], salt: usize) -> std::collections::HashMap<String, S
         if NO_RENAME.contains(&n.as_str()) || STD_GATES.iter().any(|g| g.0 == n) || n.starts_with('$') {
             continue;
         }
-        let new = match salt % 3 {
+        let new = match salt % 5 {
             0 => format!("zr{}_{i}", salt),
             1 => format!("Ω{i}x"),
-            _ => format!("{}__{}", n, i + 7),
+            2 => format!("{}__{}", n, i + 7),
+            // mixed scripts: ASCII first, then a non-ASCII letter; continue-only characters inside
+            3 => format!("v{i}ψ"),
+            // (characters that `{:?}` prints as they are, since diagnostic kinds are compared
+            // through their Debug rendering; a combining mark would be escaped there)
+            _ => format!("_{i}\u{663}\u{b7}中k"),
         };
         m.insert(n.clone(), new);
     }
